@@ -196,6 +196,18 @@ func c10Run(c *wk.Ctx, idx int64, seed int64, shared bool, scratch string) (tran
 			j := r.Intn(2)
 			ra := refdec.RA{HopLimit: byte(r.Intn(256)), Flags: byte(r.Intn(256)) &^ 0x10, Lifetime: uint16(r.Intn(65536)), Reachable: uint32(r.Int31()), Retrans: uint32(r.Int31()), Opts: gen.RAOpts(r, c14Routers[j].mac)}
 			pkt, label = raFrame(j, ra), "ra"
+			if r.Intn(3) == 0 {
+				// the router's address answers from another Ethernet address (hardware replaced, standby took over), with
+				// or without a source link layer option
+				alt := c14Routers[j].mac
+				alt[5] ^= 0x40
+				if r.Intn(2) == 0 {
+					ra.Opts = gen.RAOpts(r, alt)
+				} else {
+					ra.Opts = nil
+				}
+				pkt, label = raFrameFrom(j, ra, alt), "ra-from-other-mac"
+			}
 		case k < 9:
 			f := handlerFrame(r, e, []int{4, 5}[r.Intn(2)]) // dns / mdns responses
 			pkt, label = f.B, f.Kind
@@ -235,7 +247,7 @@ func c10Run(c *wk.Ctx, idx int64, seed int64, shared bool, scratch string) (tran
 			}
 		}
 		reps := 1
-		if label == "ra" {
+		if label == "ra" || label == "ra-from-other-mac" {
 			reps = 4
 		}
 		for k := 0; k < reps && pkt != nil; k++ {
